@@ -47,6 +47,10 @@ pub fn shapes(thorough: bool) -> Vec<Shape> {
     add("every-callback", 4, "every([n], x => f(x + 1))", "if n == 0 then true else every([n], x => f(x - 1))", "true");
     add("some-callback", 4, "some([n], x => f(x + 1))", "if n == 0 then true else some([n], x => f(x - 1))", "true");
     add("group_by-callback", 4, "group_by([n], x => f(x + 1))", "if n == 0 then \"k\" else keys(group_by([n], x => f(x - 1)))[0]", "\"k\"");
+    // the recursive call as an operand of a logical operator: each operand is evaluated once
+    add("logical-left-operand", 1, "(f(n + 1) and true)", "if n == 0 then true else (f(n - 1) and n > 0)", "true");
+    add("logical-right-operand", 1, "(true && f(n + 1))", "if n == 0 then true else (n > 0 || false) && f(n - 1)", "true");
+    add("coalesce-operand", 1, "(f(n + 1) ?? 0)", "if n == 0 then 0 else (f(n - 1) ?? 7) + 1", "300.0");
     add("list-literal", 1, "[f(n + 1)][0]", "if n == 0 then 0 else [1 + f(n - 1)][0]", "300.0");
     add("record-literal", 1, "{k: f(n + 1)}.k", "if n == 0 then 0 else {k: 1 + f(n - 1)}.k", "300.0");
     add("argument-position", 1, "max(f(n + 1), 0)", "if n == 0 then 0 else max(1 + f(n - 1), 0)", "300.0");
